@@ -37,6 +37,12 @@ REQUIRED = ['getNBest_perm', 'getNBest_rename', 'mem_getNBest_iff', 'symmetric_c
             'condorcet_sets_symmetric_candidates', 'stv_symmetric_candidates', 'score_voting_symmetric_candidates',
             'pav_symmetric_candidates', 'spav_symmetric_candidates',
             'quota_distributor_perm_all', 'largest_remainder_perm_all', 'ranked_pairs_pairwise_tie_order_witness',
+            'copeland_rule_perm_at', 'minimax_rule_perm_at', 'schulze_rule_perm_at', 'condorcet_winner_rule_perm_at',
+            'smith_rule_perm_at', 'schwartz_rule_perm_at', 'kemeny_young_rule_perm_at', 'ranked_pairs_rule_perm_at',
+            'minimax_rule_rename_at', 'schulze_rule_rename_at', 'condorcet_winner_rule_rename_at', 'smith_rule_rename_at',
+            'schwartz_rule_rename_at', 'kemeny_young_rule_rename_at', 'copeland_rule_rename_at',
+            'copeland_symmetric_candidates_at', 'minimax_symmetric_candidates_at', 'schulze_symmetric_candidates_at',
+            'condorcet_winner_symmetric_candidates_at', 'smith_symmetric_candidates_at', 'schwartz_symmetric_candidates_at',
             'baldwin_perm', 'baldwin_rename', 'benham_perm', 'tideman_perm', 'star_perm',
             'baldwin_rename_noshared', 'baldwin_symmetric_candidates', 'benham_rename', 'tideman_rename', 'tideman_n_perm', 'tideman_n_rename', 'star_rename',
             'star_rename_relisted', 'preference_addition_perm', 'decouple_perm', 'preference_addition_order_witness',
@@ -112,6 +118,12 @@ def _mj(tb):
 
 MODEL['majority_judgment'] = (_mj('default'), 'sel')
 MODEL['majority_judgment_plus'] = (_mj('plus'), 'sel')
+# the Condorcet evaluators behind RankedToCondorcetVotes(unranked_at_bottom=False) (incomplete pairwise dictionaries): the same
+# models, the converter model in its other mode; rule-level theorems: the pairwise-dictionary theorems (*_perm, *_rename hold for
+# ARBITRARY dictionaries) composed with ranked_to_condorcet_perm / ranked_to_condorcet_rename for both modes
+for _fam in [f for f in list(MODEL) if f.startswith('condorcet_') or f in ('smith_set', 'schwartz_set')]:
+    _op = MODEL[_fam][0]
+    MODEL[_fam + '_sparse'] = ((lambda prof, n, _op=_op: dict(_op(prof, n), bottom=False)), 'sel')
 PROVED_FAMILIES = list(MODEL)
 # models of C08 (Baldwin, n-seat PreferenceAddition), C05 (Benham: one seat, modelled for n = 1 only; Tideman: tidemanN, any n) and C12 (STAR)
 PROVED_FAMILIES += ['baldwin', 'benham', 'tideman_alternative', 'star', 'bucklin', 'oklahoma']
@@ -184,11 +196,11 @@ def _names_variants(rng, m):
             ('rename_person', 'PERSONS')]
 
 
-def _distinct_strengths(prof):
+def _distinct_strengths(prof, at_bottom=True):
     """ranked pairs is only required on profiles whose pairwise majorities have pairwise distinct strengths"""
     import votelib.convert as cv
     nm = Names(prefix='cand')
-    pw = cv.RankedToCondorcetVotes().convert(fam_mod.build('ranked', prof, nm))
+    pw = cv.RankedToCondorcetVotes(unranked_at_bottom=at_bottom).convert(fam_mod.build('ranked', prof, nm))
     seen = {}
     for (a, b), v in pw.items():
         r = pw.get((b, a), 0)
@@ -210,7 +222,7 @@ def generate(rng, tier):
             tries += 1
             m = rng.randint(2, 5)
             prof = fam_mod.gen_profile(rng, f.vtype, m)
-            if f.name.startswith('condorcet_rankedpairs') and not _distinct_strengths(prof):
+            if f.name.startswith('condorcet_rankedpairs') and not _distinct_strengths(prof, f.at_bottom):
                 continue
             cands = fam_mod.candidates_of(fam_mod.base_vtype(f.vtype), prof)
             mm = max(cands) + 1
@@ -284,7 +296,7 @@ def generate(rng, tier):
             prof = fam_mod.gen_profile(rng, f.vtype, m)
             if not 2 <= len(prof) <= cap:
                 continue
-            if f.name.startswith('condorcet_rankedpairs') and not _distinct_strengths(prof):
+            if f.name.startswith('condorcet_rankedpairs') and not _distinct_strengths(prof, f.at_bottom):
                 continue
             cands = fam_mod.candidates_of(fam_mod.base_vtype(f.vtype), prof)
             made += 1
@@ -405,7 +417,7 @@ def oracle(case, obs):
 
 def signature(case, clause):
     sig = f"{case['op']}:{case['family']}:{clause}"
-    if case['op'] == 'invariance' and case['family'].startswith('condorcet_rankedpairs') and not _distinct_strengths(case['prof']):
+    if case['op'] == 'invariance' and case['family'].startswith('condorcet_rankedpairs') and not _distinct_strengths(case['prof'], fams()[case['family']].at_bottom):
         sig += ':pairwise_tie'      # outside the generator's reading of the quantifier (all pair counts distinct); see known findings
     return sig
 
